@@ -161,7 +161,7 @@ def setStatsF (s : S) (f : Stats → Stats) : S :=
   { s with ifaces := s.ifaces.modify s.isbId (fun i => { i with stats := f i.stats }) }
 
 /-- 64 bit timestamp from two 32 bit words (high word first), each in file byte order -/
-def ts64 (be : Bool) (v : Bytes) : Nat := getU be (v.take 4) * two32 + getU be ((v.drop 4).take 4)
+def ts64 (be : Bool) (v : Bytes) : Nat := two32 * getU be (v.take 4) + getU be ((v.drop 4).take 4)
 
 /-- interface statistics options (with fix pcapng-1) -/
 def isbHandle (code : Nat) (v : Bytes) : Act Unit := fun s =>
